@@ -250,10 +250,25 @@ def run(ctx):
                                timeout=900, simulate=f"num={20 if q else 300}", depth=40, seed=ctx.seed + 31)
     cases += runner.sharded_tlc(ctx, "GenScen", cfg.format(profile="c10", shard=0, nshards=1), 16, "GenScen_c10",
                                 timeout=900, simulate=f"num={40 if q else 600}", depth=30, seed=ctx.seed + 33)
-    cases = C04.dedup(cases)
+    # exhaustive small profile c06s: ExclusionAdditive on EVERY scenario (M), and every scenario through the harness (G)
+    p = os.path.join(core.OUT, f"GenScen_c10sM_{os.getpid()}.cfg")
+    open(p, "w").write(cfg.format(profile="c06s", shard=1, nshards=1) + "INVARIANT ExclusionAdditive\nINVARIANT RefTotal\n")
+    try:
+        r = core.tlc("GenScen", p, workers=runner.NCPU, timeout=900, tag="C10sM", heap="4g")
+    finally:
+        os.unlink(p)
+    ctx.add_tlc("GenScen c06s ExclusionAdditive (every subset of files excluded, every scenario)", r)
+    if r.violation:
+        ctx.model_violation("GenScen_c06s", r)
+    small = C04.dedup(runner.sharded_tlc(ctx, "GenScen", cfg.format(profile="c06s", shard="@SHARD@", nshards="@NSHARDS@"), 8,
+                                         "GenScen_c06s", timeout=900))
+    ctx.cov["scenarios_exhaustive_c06s"] = len(small)
+    cases = C04.dedup(small + cases)
     if not cases:
         raise core.MachineryError("no scenarios")
     ctx.cov["rule"] = (
+        "every scenario of the small profile c06s (h.h beside the mains and in the -I directory, body depending on X, two "
+        "mains, two commands over one or two platforms) and "
         "TLC-simulated GenScen scenarios (7 header slots incl. a directory outside the root, headers that define/undefine/"
         "test macros and include each other, 2 mains, 3 TUs, 2 platforms) x exclude lists matching every single code-base "
         "file, every top-level directory, `*.h`, `*.h` with one negated re-inclusion and random subsets; the pipeline is run "
